@@ -40,21 +40,20 @@ func Assumptions(prop string) []string {
 // still charged only to the properties whose API surface reaches the
 // function it sits in, see attrib.go.)
 var extraProps = map[string][]string{
-	"FORMATCONST_KEYORDER": {"C01", "C04", "C09"}, // built-in key order is the map's order
+	"FORMATCONST_KEYORDER": {"C01", "C04"}, // built-in key order is the map's order and shapes the reference tree
 	"FORMATCONST_LAYER":    {"C04", "C09"},        // layers determine the canonical shape
-	"SIZE":                 {"C09", "C05"},        // Root.Size = number of entries
+	"SIZE":                 {"C09"},               // Root.Size = number of entries
 	"HASHNAME":             {"C14", "C04"},        // hash and encoding identities are part of the published format
 	"DET":                  {"C14"},
 	"ENCINPUTS":            {"C14", "C04"},
 	"LINKNIL":              {"C06", "C07"},
 	"NILROOT":              {"C10", "C07"},
-	"PURITY":               {"C02", "C10", "C06"},
+	"PURITY":               {"C02"},
 	"TRIPLE":               {"C01"},
-	"THRESH":               {"C09", "C05"},
+	"THRESH":               {"C05"},
 	"FORMATS":              {"C14"},
 	"CODECSYM":             {"C14"},
 	"ROOTFIELDS":           {"C04"},
-	"CLEANSKIP":            {"C03"}, // the skip is sound only because clean ⇒ already stored
 	// copy-on-write is what makes a reloaded tree independent of its source (C05, "with or without a node cache"),
 	// what keeps "same root name ⇒ same contents" true in memory (C08), what makes a failed operation harmless
 	// before the root swap (C12), and what C01 quantifies over ("cache on/off")
@@ -65,4 +64,19 @@ var extraProps = map[string][]string{
 	"COMMIT":     {"C09"}, // a failed operation that leaves a half-applied change breaks the shape the next persist records
 	"CACHEAFTER": {"C11"}, // one tree's unfinished write must not make another tree skip its own
 	"ATOMICFILE": {"C18"}, // a successful file Store has written the bytes
+}
+
+// dropProps removes a property from a rule's owners where a violation of the
+// rule's clause does not by itself violate that property (found when the
+// ownership table was reviewed against the properties' statements and
+// quantifiers): an alarm for such a property would be a false alarm even
+// though the code is defective with respect to another property.
+var dropProps = map[string][]string{
+	"CACHEAFTER":    {"C13"}, // a node cached too early causes missing writes (C03), not extra ones
+	"NODEURLPREFIX": {"C18"}, // the prefix is not part of the Load/Store contract
+	"ERRFLOW":       {"C01", "C05"}, // C01 and C05 quantify over healthy stores
+	"POWLOOP":       {"C09"},
+	"GROWLOOP":      {"C09"}, // a too-small height still satisfies the shape invariants
+	"NILLINKDECODE": {"C09"},
+	"CURSORCLONE":   {"C10"},
 }
